@@ -341,23 +341,23 @@ pub fn parse_proj(definition: &str) -> Result<String, Error> {
             }
         }
 
-        tidy_proj(&mut elements)?;
-
         // Skip empty steps, insert pipeline globals, handle step and pipeline
         // inversions, and handle directional omissions (omit_fwd, omit_inv)
         let mut geodesy_step = elements.join(" ").trim().to_string();
         if !geodesy_step.is_empty() {
-            if !pipeline_globals.is_empty() {
-                elements.insert(1, pipeline_globals.clone());
+            for (j, global) in pipeline_globals.split_whitespace().enumerate() {
+                elements.insert(1 + j, global.to_string());
             }
+            // a, rf and k may come from the globals as well
+            tidy_proj(&mut elements)?;
 
             let step_is_inverted = elements.contains(&"inv".to_string());
             elements = elements
                 .iter()
                 .filter(|x| x.as_str() != "inv")
                 .map(|x| match x.as_str() {
-                    "omit_fwd" => "omit_inv",
-                    "omit_inv" => "omit_fwd",
+                    "omit_fwd" if pipeline_is_inverted => "omit_inv",
+                    "omit_inv" if pipeline_is_inverted => "omit_fwd",
                     _ => x,
                 })
                 .map(|x| x.to_string())
@@ -374,6 +374,10 @@ pub fn parse_proj(definition: &str) -> Result<String, Error> {
                 geodesy_steps.push(geodesy_step);
             }
         }
+    }
+    // A lone directional step must stay a pipeline: there is nothing to omit a lone operator from
+    if geodesy_steps.len() == 1 && geodesy_steps[0].split_whitespace().any(|x| x == "omit_fwd" || x == "omit_inv") {
+        return Ok(geodesy_steps[0].clone() + " |");
     }
     Ok(geodesy_steps.join(" | ").trim().to_string())
 }
